@@ -25,6 +25,12 @@ CHECKS = {
         text="ModuleManager.sort_modules is read from /repo and executed by the pysx interpreter with the dependency map as N*(N+1) Boolean solver variables and ignores() arbitrary; z3 decides for ALL maps over N<=5 (thorough 7) modules plus one unknown name: no exception, the while loop needs at most N iterations (unwinding obligation), the result is a permutation of the keys, and if a rank function exists on the known edges every module follows its dependencies. Counterexamples are replayed on the real function.",
         note="Bounds: N<=5/7 modules, one unknown name. dict order = insertion order (all orders by relabelling); set iteration order taken as universe order. Translator validated each run against the real function on random maps. Trusted: pysx, z3.",
         ref="5/C27"),
+    "C14": dict(
+        level="model_checking", engine="crosshair",
+        technique="CrossHair symbolic execution (z3) of the real ChildrenList/Node methods: inductive step with symbolic index and item selectors per (pre-state, operation)",
+        text="For each enumerated well-formed parent pre-state and each public child-list operation, CrossHair executes the real method with the index (range -7..7) and item selectors as solver variables and must confirm over all paths that the local invariant holds afterwards and that a raising operation changed nothing. One inductive step from any valid local state covers edit histories of any length because the invariant is local to a (parent, children) pair. Counterexamples are re-run in CPython.",
+        note="Pre-states: 7 parent kinds quick / 20 thorough, built with the real constructors; 10 candidate item kinds; index -7..7. 'Not confirmed' counts as inconclusive. Trusted: CrossHair, z3.",
+        ref="5/C14"),
 }
 
 NA = {
